@@ -34,8 +34,9 @@ Definition with_hdr (r : response) (h : headers) : response :=
 Definition is_get (m : bytes) : bool := beq m (bs "GET").
 Definition is_request_method_understood (q : request) : bool :=
   is_get (q_method q) && beq (hget (bs "Range") (q_hdr q)) [].
-Definition is_unsafe_method (m : bytes) : bool :=
-  beq m (bs "POST") || beq m (bs "PUT") || beq m (bs "DELETE") || beq m (bs "PATCH").
+Definition safe_methods : list bytes :=
+  [bs "GET"; bs "HEAD"; bs "OPTIONS"; bs "TRACE"; bs "PROPFIND"; bs "REPORT"; bs "SEARCH"; bs "PRI"; bs "QUERY"].
+Definition is_unsafe_method (m : bytes) : bool := negb (in_names m safe_methods).
 Definition is_non_error_status (s : Z) : bool := (200 <=? s) && (s <? 400).
 
 (* ---- internal/clock.go: FixDateHeader ---- *)
@@ -58,13 +59,9 @@ Definition can_store_response (r : response) (req_cc res_cc : directives) : bool
 Definition hop_by_hop_fixed : list bytes :=
   [bs "Connection"; bs "Proxy-Connection"; bs "Keep-Alive"; bs "Te"; bs "Transfer-Encoding";
    bs "Upgrade"; bs "Proxy-Authenticate"; bs "Proxy-Authentication-Info"; bs "Proxy-Authorization"].
-(* Note: the Go map literal has the key "TE", which is not the canonical form "Te" that net/http
-   uses in header maps; the model keeps the literal: *)
-Definition hop_by_hop_literal : list bytes :=
-  [bs "Connection"; bs "Proxy-Connection"; bs "Keep-Alive"; bs "TE"; bs "Transfer-Encoding";
-   bs "Upgrade"; bs "Proxy-Authenticate"; bs "Proxy-Authentication-Info"; bs "Proxy-Authorization"].
+(* plus the fields named by every Connection field line *)
 Definition hop_by_hop_headers (h : headers) : list bytes :=
-  hop_by_hop_literal ++ trimmed_csv_canonical (hget (bs "Connection") h).
+  hop_by_hop_fixed ++ flat_map trimmed_csv_canonical (hvalues (bs "Connection") h).
 (* delete(resp.Header, hdr): direct map deletion, no canonicalisation *)
 Definition remove_hop_by_hop (h : headers) : headers :=
   fold_left (fun acc n => aremove n acc) (hop_by_hop_headers h) h.
@@ -110,6 +107,17 @@ Fixpoint replace_nth {A} (n : nat) (x : A) (l : list A) : list A :=
   | y :: r, S k => y :: replace_nth k x r
   end.
 
+(* responseCache.SetRefs: of several references to one response ID the last is kept *)
+Fixpoint unique_refs_rev (l : list (option ref)) (seen : list bytes) : list (option ref) :=
+  match l with
+  | [] => []
+  | None :: t => None :: unique_refs_rev t seen
+  | Some r :: t =>
+      if in_names (r_id r) seen then unique_refs_rev t seen
+      else Some r :: unique_refs_rev t (r_id r :: seen)
+  end.
+Definition unique_refs (l : list (option ref)) : list (option ref) := rev (unique_refs_rev (rev l) []).
+
 (* returns the response as mutated by removeHopByHopHeaders *)
 Definition store_response (q : request) (r : response) (url_key : bytes)
            (refs : list (option ref)) (req_at recv_at : Z) (ref_index : Z) : prog response :=
@@ -127,9 +135,19 @@ Definition store_response (q : request) (r : response) (url_key : bytes)
         else replace_nth (Z.to_nat ref_index) (Some new_ref) refs in
       (* cache.Set fails before reaching the backend when the body cannot be dumped *)
       if p_body_ok r1
-      then SetEntry id (entry_of id r1 req_at recv_at) (SetRefs url_key refs' (Ret r1))
-      else SetRefs url_key refs' (Ret r1)
+      then SetEntry id (entry_of id r1 req_at recv_at) (SetRefs url_key (unique_refs refs') (Ret r1))
+      else SetRefs url_key (unique_refs refs') (Ret r1)
   end.
+
+(* responseCache.GetRefs: null elements of a decoded index are dropped *)
+Fixpoint drop_nil_refs (l : list (option ref)) : list (option ref) :=
+  match l with
+  | [] => []
+  | None :: t => drop_nil_refs t
+  | Some r :: t => Some r :: drop_nil_refs t
+  end.
+Definition get_refs_clean {A} (k : bytes) (c : option (list (option ref)) -> prog A) : prog A :=
+  GetRefs k (fun ans => c (option_map drop_nil_refs ans)).
 
 (* ---- internal/cacheinvalidator.go ---- *)
 (* ResponseIDs(): dereferences every element *)
@@ -156,7 +174,7 @@ Fixpoint invalidate_locations {A} (hs : list bytes) (req_url : url) (resp_hdr : 
               let lu := resolve_reference req_url pr in
               if same_origin req_url lu then
                 let k := make_url_key lu in
-                GetRefs k (fun ans =>
+                get_refs_clean k (fun ans =>
                   let refs := match ans with Some l => l | None => [] end in
                   match ref_ids refs with
                   | None => Crash
@@ -202,8 +220,11 @@ Definition handle_validation_response (ctx : reval_ctx) (q : request) (rep : ori
     match rep with
     | RResp r =>
         let merged := response_of (entry_with_hdr stored (update_stored_headers (e_hdr stored) (p_hdr r))) in
-        r1 <- store_response q merged (rc_url_key ctx) (rc_refs ctx) (rc_start ctx) (rc_end ctx) (rc_ref_index ctx) ;;
-        Ret (OResp (with_hdr r1 (apply_status REVALIDATED (p_hdr r1))))
+        if req_no_store (rc_cc_req ctx) || resp_no_store (parse_cc (p_hdr r)) then
+          Ret (OResp (with_hdr merged (apply_status REVALIDATED (p_hdr merged))))
+        else
+          r1 <- store_response q merged (rc_url_key ctx) (rc_refs ctx) (rc_start ctx) (rc_end ctx) (rc_ref_index ctx) ;;
+          Ret (OResp (with_hdr r1 (apply_status REVALIDATED (p_hdr r1))))
     | RErr => Crash
     end
   else
@@ -246,7 +267,7 @@ Definition handle_cache_miss (q : request) (url_key : bytes) (refs : list (optio
       | RErr => Ret OErr
       | RResp r =>
           let cc_resp := parse_cc (p_hdr r) in
-          if can_store_response r cc_req cc_resp then
+          if negb (p_status r =? 304) && can_store_response r cc_req cc_resp then
             r1 <- store_response q r url_key refs start stop ref_index ;;
             Ret (OResp (with_hdr r1 (apply_status MISS (p_hdr r1))))
           else Ret (OResp (with_hdr r (apply_status MISS (p_hdr r))))
@@ -282,7 +303,7 @@ Definition background_revalidate (q : request) (stored : stored_entry) (url_key 
           match own with
           | None => Ret tt
           | Some own_entry =>
-              GetRefs url_key (fun ans =>
+              get_refs_clean url_key (fun ans =>
                 let refs := match ans with Some l => l | None => [] end in
                 let ctx := {| rc_url_key := url_key; rc_start := start; rc_end := stop; rc_cc_req := cc_req;
                               rc_stored := own_entry; rc_fresh := f; rc_refs := refs;
@@ -344,7 +365,7 @@ Definition handle_unrecognized_method (q : request) (url_key : bytes) : prog out
     | RResp r =>
         let done := Ret (OResp (with_hdr r (apply_status BYPASS (p_hdr r)))) in
         if is_unsafe_method (q_method q) && is_non_error_status (p_status r) then
-          GetRefs url_key (fun ans =>
+          get_refs_clean url_key (fun ans =>
             let refs := match ans with Some l => l | None => [] end in
             invalidate_cache (q_url q) (p_hdr r) refs url_key done)
         else done
@@ -363,7 +384,7 @@ Definition round_trip (q : request) : prog outcome :=
   let url_key := make_url_key (q_url q) in
   if negb (is_request_method_understood q) then handle_unrecognized_method q url_key
   else
-    GetRefs url_key (fun ans =>
+    get_refs_clean url_key (fun ans =>
       match ans with
       | None => handle_cache_miss q url_key [] (-1)
       | Some [] => handle_cache_miss q url_key [] (-1)
